@@ -356,6 +356,16 @@ def enumerated():
             ends = [b"\r\n"] * len(base)
             ends[i] = nl
             yield b"".join(l + e for l, e in zip(base, ends)) + b"hello" + NEXT, "line-end"
+    # the tolerated blank line before / between pipelined requests: whatever the server does with the request
+    # right after it (don't-care), the canonical requests that follow must still be delivered, in order
+    for first in (b"POST /r0 HTTP/1.1\r\nHost: h\r\nContent-Length: 5\r\n\r\nhello", b"GET /r0 HTTP/1.1\r\nHost: h\r\n\r\n",
+                  b"POST /r0 HTTP/1.1\r\nHost: h\r\nTransfer-Encoding: chunked\r\n\r\n" + chunked5, b""):
+        for blank in (b"\r\n", b"\r\n\r\n", b""):
+            second = b"GET /r1 HTTP/1.1\r\nHost: h\r\n\r\n"
+            third = b"POST /r2 HTTP/1.1\r\nHost: h\r\nContent-Length: 3\r\n\r\nabc"
+            yield first + blank + second + NEXT, "blank-line-between"
+            yield first + blank + second + third + NEXT, "blank-line-between"
+            yield first + blank + second + blank + third + NEXT, "blank-line-between"
     for x in range(10):
         for y in range(10):
             yield b"GET /r0 HTTP/%d.%d\r\nHost: h\r\n\r\n" % (x, y) + NEXT, "version"
